@@ -167,9 +167,359 @@ def has_nondet(p):
     return False
 
 
-def gen_cases(rng, tier):
+
+# ---------- deeply nested patterns (depth 3-5) ----------
+
+LEAVES = [N(0), N(1), N(2), N(3), X.string("a"), X.string("b"), X.set_([]), X.true_()]
+
+
+def deep_value(rng, depth):
+    """a value with a path `depth` containers deep, mixing array / tuple / dict / one-member set"""
+    if depth <= 0:
+        return rng.choice(LEAVES)
+    deep = deep_value(rng, depth - 1)
+
+    def side():
+        return deep_value(rng, rng.randrange(0, max(1, depth - 1)))
+    kind = rng.choice(["arr", "tup", "dict", "set1", "arr", "tup", "dict"])
+    if kind == "arr":
+        items = [side() for _ in range(rng.randrange(0, 3))]
+        items.insert(rng.randrange(len(items) + 1), deep)
+        return X.arr(items)
+    if kind == "tup":
+        names = rng.sample(["a", "b", "c", "d"], rng.randrange(1, 4))
+        vals = [side() for _ in names]
+        vals[rng.randrange(len(vals))] = deep
+        return X.tup(list(zip(names, vals)))
+    if kind == "dict":
+        ks = rng.sample([X.string("k"), X.string("m"), N(1), N(2)], rng.randrange(1, 4))
+        vals = [side() for _ in ks]
+        vals[rng.randrange(len(vals))] = deep
+        return X.dict_(list(zip(ks, vals)))
+    return X.set_([deep])
+
+
+class DeepCtx:
+    """names bound so far (for repeated names across levels) and enclosing lets (for dynamic `(k)` patterns)"""
+    def __init__(self, rng):
+        self.rng, self.bound, self.n, self.outer, self.nexprs = rng, {}, 0, [], 0
+
+    def name_for(self, v):
+        same = [x for x, w in self.bound.items() if w == v]
+        r = self.rng.random()
+        if same and r < 0.4:
+            return self.rng.choice(same)                      # repeated name that agrees
+        if self.bound and r < 0.45:
+            return self.rng.choice(sorted(self.bound))        # repeated name, most likely disagreeing
+        self.n += 1
+        x = "w%d" % self.n
+        self.bound[x] = v
+        return x
+
+    def outer_for(self, v):
+        k = "k%d" % len(self.outer)
+        self.outer.append((k, v))
+        return k
+
+
+def is_nat(v):
+    return v[0] == "num" and v[1] >= 0 and v[1] == int(v[1])
+
+
+def is_container(v):
+    return v[0] in ("arr", "tup", "dict") or (v[0] == "set" and len(v[1]) > 0)
+
+
+def deep_leaf(rng, v, cx, in_set=False):
+    r = rng.random()
+    if r < 0.5:
+        return X.pvar(cx.name_for(v))
+    if r < 0.58:
+        return X.pwild()
+    if r < 0.76 and (not in_set or is_nat(v)):
+        return X.pexpr(v)                                     # literal / parenthesised constant expression
+    if r < 0.86 and not in_set:
+        # (e1, e2, ..): any of the alternatives; the value itself sits at a random position, as a constant or as (k)
+        alts = [rng.choice(LEAVES + [X.arr([N(1)]), X.tup([("a", N(1))])]) for _ in range(rng.randrange(1, 3))]
+        me = v if rng.random() < 0.6 else X.var(cx.outer_for(v))
+        alts.insert(rng.randrange(len(alts) + 1), me)
+        cx.nexprs += 1
+        return X.pexprs(alts)
+    return X.pexpr(X.var(cx.outer_for(v)))                    # (k): the value of an enclosing let
+
+
+def deep_pattern(rng, v, cx, in_set=False):
+    """pattern derived from v, nested as deep as v: array-in-tuple-in-dict-in-set, ...rest at any level"""
+    if not is_container(v) or rng.random() < 0.1:
+        return deep_leaf(rng, v, cx, in_set)
+    if v[0] == "arr":
+        if v[2] != 0 or any(x is None for x in v[1]):
+            return deep_leaf(rng, v, cx, in_set)
+        items = [X.item(deep_pattern(rng, x, cx)) for x in v[1]]
+        if rng.random() < 0.45:
+            i = rng.randrange(len(items) + 1)
+            j = rng.randrange(i, len(items) + 1)
+            mid = X.arr(v[1][i:j])
+            items = items[:i] + [X.extra(cx.name_for(mid) if rng.random() < 0.75 else None)] + items[j:]
+        return X.parr(items)
+    if v[0] == "tup":
+        attrs = [(n, X.item(deep_pattern(rng, x, cx))) for n, x in v[1]]
+        rng.shuffle(attrs)
+        if rng.random() < 0.4:
+            keep = rng.sample(attrs, rng.randrange(0, len(attrs) + 1))
+            kept = set(n for n, _ in keep)
+            rest = X.tup([(n, x) for n, x in v[1] if n not in kept])
+            pos = rng.randrange(len(keep) + 1)
+            attrs = keep[:pos] + [("", X.extra(cx.name_for(rest) if rng.random() < 0.75 else None))] + keep[pos:]
+        return X.ptup(attrs)
+    if v[0] == "dict":
+        ents = [(kk, X.item(deep_pattern(rng, x, cx))) for kk, x in v[1]]
+        rng.shuffle(ents)
+        if rng.random() < 0.4:
+            keep = rng.sample(ents, rng.randrange(1, len(ents) + 1))
+            kept = [kk for kk, _ in keep]
+            rest = X.dict_([(kk, x) for kk, x in v[1] if kk not in kept]) if len(kept) < len(v[1]) else X.set_([])
+            pos = rng.randrange(1, len(keep) + 1)             # a key first: `{...x}` alone is a set pattern
+            ents = keep[:pos] + [(None, X.extra(cx.name_for(rest) if rng.random() < 0.75 else None))] + keep[pos:]
+        return X.pdict(ents)
+    # a non-empty set
+    ms = v[1]
+    if len(ms) == 1:
+        r = rng.random()
+        if r < 0.7:
+            return X.pset([X.item(deep_pattern(rng, ms[0], cx, in_set=True))])      # {P}: the single member
+        if r < 0.85:
+            return X.pset([X.extra(cx.name_for(v) if rng.random() < 0.75 else None)])
+        return deep_leaf(rng, v, cx, in_set)
+    return deep_leaf(rng, v, cx, in_set)
+
+
+def perturb_deep(rng, v):
+    """near-miss of one value: perturb() plus dict near-misses"""
+    if v[0] == "dict" and v[1]:
+        ents = list(v[1])
+        k = rng.random()
+        if k < 0.3:
+            return X.dict_(ents + [(X.string("zz"), N(1))])
+        if k < 0.55 and len(ents) > 1:
+            del ents[rng.randrange(len(ents))]
+            return X.dict_(ents)
+        if k < 0.9:
+            i = rng.randrange(len(ents))
+            ents[i] = (ents[i][0], perturb_deep(rng, ents[i][1]))
+            return X.dict_(ents)
+        return X.arr([N(1)])
+    if v[0] == "set" and len(v[1]) == 1 and v[1][0][0] != "num":
+        k = rng.random()
+        if k < 0.4:
+            return X.set_([v[1][0], N(77)])
+        if k < 0.6:
+            return X.set_([])
+        return X.set_([perturb_deep(rng, v[1][0])])
+    return perturb(rng, v)
+
+
+def perturb_at(rng, v, depth):
+    """a near-miss `depth` levels down a random path of v (or as deep as the path goes)"""
+    if depth <= 0:
+        return perturb_deep(rng, v)
+    if v[0] == "arr" and v[1] and v[2] == 0 and all(x is not None for x in v[1]):
+        items = list(v[1])
+        i = rng.randrange(len(items))
+        items[i] = perturb_at(rng, items[i], depth - 1)
+        return X.arr(items)
+    if v[0] == "tup" and v[1]:
+        attrs = list(v[1])
+        i = rng.randrange(len(attrs))
+        attrs[i] = (attrs[i][0], perturb_at(rng, attrs[i][1], depth - 1))
+        return X.tup(attrs)
+    if v[0] == "dict" and v[1]:
+        ents = list(v[1])
+        i = rng.randrange(len(ents))
+        ents[i] = (ents[i][0], perturb_at(rng, ents[i][1], depth - 1))
+        return X.dict_(ents)
+    if v[0] == "set" and len(v[1]) == 1:
+        return X.set_([perturb_at(rng, v[1][0], depth - 1)])
+    return perturb_deep(rng, v)
+
+
+def pat_depth(p):
+    if p[0] in ("parr", "pset"):
+        return 1 + max([pat_depth(i[1]) for i in p[1] if i[0] == "item"] + [0])
+    if p[0] in ("ptup", "pdict"):
+        return 1 + max([pat_depth(i[1]) for _, i in p[1] if i[0] == "item"] + [0])
+    return 0
+
+
+def count_rests(p):
+    items = []
+    if p[0] in ("parr", "pset"):
+        items = p[1]
+    elif p[0] in ("ptup", "pdict"):
+        items = [i for _, i in p[1]]
+    return sum(1 for i in items if i[0] == "extra") + sum(count_rests(i[1]) for i in items if i[0] == "item")
+
+
+def with_outer(cx, e):
+    for k, v in reversed(cx.outer):
+        e = X.let(X.pvar(k), v, e)
+    return e
+
+
+def deep_cases(rng, n, stats):
     out = []
-    n = 700 if tier == "quick" else 6000
+    tries = 0
+    while len(out) < n and tries < 20 * n:
+        tries += 1
+        d = rng.choice([3, 3, 4, 4, 5])
+        v = deep_value(rng, d)
+        cx = DeepCtx(rng)
+        p = deep_pattern(rng, v, cx)
+        pd = pat_depth(p)
+        if pd < 3:
+            continue
+        miss = rng.random() < 0.45
+        md = rng.randrange(0, d + 1)
+        target = perturb_at(rng, v, md) if miss else v
+        bound = sorted(pat_names(p, set()))
+        body = X.tup([(x, X.var(x)) for x in bound]) if bound else N(1)
+        r = rng.random()
+        if r < 0.45:
+            e, form = X.let(p, target, body), "let"
+        elif r < 0.65:
+            e, form = X.call(X.fn(p, body), target), "call"
+        else:
+            arms = [(p, X.tup([("arm", N(1)), ("b", body)])), (X.pwild(), N(0))]
+            if rng.random() < 0.3:
+                arms = [(X.pexpr(N(99)), N(9))] + arms
+            e, form = X.condpat(target, arms), "cond"
+        out.append(("deep " + form + (" near-miss" if miss else ""), with_outer(cx, e)))
+        stats["depth"][str(pd)] = stats["depth"].get(str(pd), 0) + 1
+        stats["rests"][str(count_rests(p))] = stats["rests"].get(str(count_rests(p)), 0) + 1
+        reps = len(pat_name_list(p, [])) - len(bound)
+        stats["repeated_names"][str(min(reps, 3))] = stats["repeated_names"].get(str(min(reps, 3)), 0) + 1
+        stats["dynamic_expr_patterns"] += len(cx.outer)
+        stats["alternative_patterns"] = stats.get("alternative_patterns", 0) + cx.nexprs
+        if miss:
+            stats["near_miss_depth"][str(md)] = stats["near_miss_depth"].get(str(md), 0) + 1
+    return out
+
+
+def pat_name_list(p, acc):
+    if p[0] == "pvar":
+        acc.append(p[1])
+    elif p[0] in ("parr", "pset"):
+        for i in p[1]:
+            if i[0] == "extra":
+                if i[1]:
+                    acc.append(i[1])
+            else:
+                pat_name_list(i[1], acc)
+    elif p[0] in ("ptup", "pdict"):
+        for _, i in p[1]:
+            if i[0] == "extra":
+                if i[1]:
+                    acc.append(i[1])
+            else:
+                pat_name_list(i[1], acc)
+    return acc
+
+
+# ---------- region of the open finding: set patterns with an expression item that is not a number or an identifier ----------
+
+SIG_SET_EXPR = "set-pattern-expr-item"
+
+
+def pats_of(e, acc):
+    """all patterns occurring in a program"""
+    if isinstance(e, tuple):
+        if e and isinstance(e[0], str) and e[0] in ("pvar", "pwild", "pexpr", "pexprs", "parr", "ptup", "pdict", "pset"):
+            acc.append(e)
+        for x in e:
+            pats_of(x, acc)
+    elif isinstance(e, list):
+        for x in e:
+            pats_of(x, acc)
+    return acc
+
+
+def in_set_expr_region(ast):
+    for p in pats_of(ast, []):
+        if p[0] == "pset":
+            for i in p[1]:
+                if i[0] == "item" and i[1][0] == "pexpr" and not is_nat(i[1][1]) and i[1][1][0] != "var":
+                    return True
+    return False
+
+
+SIG_DICT_REST = "dict-pattern-rest-not-last"
+
+
+def in_dict_rest_region(ast):
+    """a dict pattern whose ...rest is followed by a keyed item"""
+    for p in pats_of(ast, []):
+        if p[0] == "pdict":
+            seen = False
+            for _, i in p[1]:
+                if i[0] == "extra":
+                    seen = True
+                elif seen:
+                    return True
+    return False
+
+
+WITNESS_AST = {      # the committed witnesses as abstract trees (the source text run is the one in known_findings.txt)
+    SIG_SET_EXPR: X.let(X.pset([X.item(X.pexpr(X.string("a")))]), X.set_([X.string("b")]), N(1)),
+    SIG_DICT_REST: X.let(X.pdict([(X.string("a"), X.item(X.pvar("x"))), (None, X.extra("r")), (X.string("b"), X.item(X.pvar("y")))]),
+                         X.dict_([(X.string("a"), N(1)), (X.string("b"), N(2)), (X.string("c"), N(3))]), X.var("r")),
+}
+
+
+def exprs_core():
+    """(e1, e2, ..) patterns: the value equal to the first / a later / no alternative, constants and (k) mixed, top level and nested"""
+    out = []
+    for tg in (N(1), N(2), N(3), X.string("a"), X.arr([N(1)])):
+        for alts in ([N(1), N(2)], [N(2), N(1)], [X.var("k"), N(2)], [N(2), X.var("k")], [X.string("a"), X.arr([N(1)]), N(3)]):
+            p = X.pexprs(alts)
+            out.append(("exprs core", X.let(X.pvar("k"), N(1), X.condpat(tg, [(p, X.string("hit")), (X.pwild(), X.string("miss"))]))))
+            out.append(("exprs core", X.let(X.pvar("k"), N(1), X.let(X.parr([X.item(X.pvar("x")), X.item(p)]), X.arr([N(7), tg]), X.var("x")))))
+            out.append(("exprs core", X.let(X.pvar("k"), N(1), X.call(X.fn(X.ptup([("a", X.item(p)), ("", X.extra("r"))]), X.var("r")), X.tup([("a", tg), ("b", N(5))])))))
+    return out
+
+
+def dict_rest_core():
+    """{k1: p, ...r, k2: q} with the rest first / in the middle / last, against dicts with and without further entries"""
+    out = []
+    A, B, C = X.string("a"), X.string("b"), X.string("c")
+    ia, ib, ir = (A, X.item(X.pvar("x"))), (B, X.item(X.pvar("y"))), (None, X.extra("r"))
+    for ents in ([ia, ir, ib], [ia, ib, ir], [ir, ia, ib], [ia, ir], [ir, ia]):
+        if ents[0][0] is None:
+            continue        # `{...r, ..}` is read as a set pattern by the parser
+        for tg in (X.dict_([(A, N(1)), (B, N(2)), (C, N(3))]), X.dict_([(A, N(1)), (B, N(2))]), X.dict_([(A, N(1)), (C, N(3))])):
+            body = X.tup([(z, X.var(z)) for z in sorted(pat_names(X.pdict(ents), set()))])
+            out.append(("dict rest core", X.let(X.pdict(ents), tg, body)))
+            out.append(("dict rest core", X.condpat(tg, [(X.pdict(ents), body), (X.pwild(), N(0))])))
+    return out
+
+
+def set_expr_core():
+    """{item, ...t} / {item} / {item, x} with an item that is a string, a negative or fractional number or a parenthesised
+    expression, against sets that do and do not contain its value"""
+    out = []
+    items = [(X.string("a"), X.string("b")), (N(-1), N(-2)), (N(1.5), N(2.5)), (X.binop("+", N(1), N(1)), N(3)),
+             (X.arr([N(1)]), X.arr([N(2)])), (X.tup([("a", N(1))]), X.tup([("a", N(2))]))]
+    for lit, other in items:
+        for tg in (X.set_([lit, N(4)]), X.set_([other, N(4)])):
+            out.append(("set expr item core", X.let(X.pset([X.item(X.pexpr(lit)), X.extra("t")]), tg, X.var("t"))))
+            out.append(("set expr item core", X.condpat(tg, [(X.pset([X.item(X.pexpr(lit)), X.item(X.pvar("x"))]), X.var("x")), (X.pwild(), X.string("no"))])))
+        for tg in (X.set_([lit]), X.set_([other])):
+            out.append(("set expr item core", X.condpat(tg, [(X.pset([X.item(X.pexpr(lit))]), N(1)), (X.pwild(), N(0))])))
+    return out
+
+
+def gen_cases(rng, tier, dstats=None):
+    out = []
+    n = 450 if tier == "quick" else 6000
     for _ in range(n):
         v = rand_value(rng)
         if rng.random() < 0.1:      # set patterns get their own share
@@ -268,6 +618,16 @@ def gen_cases(rng, tier):
         out.append(("cond default core", X.condpat(ctl, [(X.pexpr(N(99)), N(0)), (X.pwild(), X.string("mid")), (pa, V("x"))])))
         out.append(("cond default core", X.condpat(fv, [(X.pwild(), X.string("first")), (X.pexpr(fv), X.string("second"))])))
         out.append(("cond default core", X.condpat(fv, [(X.pvar("z"), X.tup([("z", V("z"))])), (X.pwild(), N(0)), (X.pexpr(fv), N(1))])))
+    # deeply nested patterns: depth 3-5, ...rest at several levels, names repeated across levels, dynamic (k) patterns,
+    # against the value itself or a near-miss at a random depth
+    if dstats is None:
+        dstats = {}
+    dstats.update({"depth": {}, "rests": {}, "repeated_names": {}, "near_miss_depth": {}, "dynamic_expr_patterns": 0})
+    out += deep_cases(rng, 420 if tier == "quick" else 5000, dstats)
+    # the region of KF-C09-01 (and its committed witness)
+    out += set_expr_core()
+    out += dict_rest_core()
+    out += exprs_core()
     # committed probes
     out += [("probe", X.let(X.parr([X.item(X.pvar("x")), X.item(X.pvar("x"))]), X.arr([N(1), X.string("1")]), X.var("x"))),
             ("probe", X.let(X.parr([X.item(X.pvar("a")), X.item(X.pvar("b"))]), X.arr([N(1), N(2)], 1), X.var("a"))),
@@ -280,12 +640,36 @@ def main(tier, seed, replay=None):
     run = Run(PROP, tier, seed)
     vh, proof = prepare(PROP_FILES, thorough=(tier == "thorough"))
     rng = random.Random(seed)
-    cases = evalcheck.replay_cases(replay) if replay else gen_cases(rng, tier)
+    dstats = {}
+    cases = evalcheck.replay_cases(replay) if replay else gen_cases(rng, tier, dstats)
+    wits = []
+    if not replay:
+        for sig, wast in WITNESS_AST.items():
+            f = run.finding_for(sig)
+            if f and f.get("witness"):
+                # the committed witness is run as the source text of known_findings.txt against the specification's answer
+                w = {"id": len(cases), "label": "witness", "src": f["witness"], "coq": X.coq(wast), "ast": wast, "witness_of": f}
+                cases.append(w)
+                wits.append(w)
     outs, codes, fails = evalcheck.evaluate(vh, cases)
+    for w in wits:
+        if codes.get(w["id"]) in (0, 9):
+            run.corr_breaks.append({"what": "open finding %s (%s) was not reproduced by its witness (fixed upstream? flip the entry)"
+                                            % (w["witness_of"]["id"], w["witness_of"]["sig"]), "src": w["src"]})
+
+    def sig_of(c):
+        a = c.get("ast")
+        if a is None:
+            return None
+        if in_set_expr_region(a):
+            return SIG_SET_EXPR
+        if in_dict_rest_region(a):
+            return SIG_DICT_REST
+        return None
     # matching vs non-matching is the property: error/no-error disagreements count as failures
     evalcheck.judge(run, cases, outs, codes, fails,
                     "bindings / selected cond arm / match failure vs matching by reconstruction (Properties/C09.v, Eval/Interp.v bind_pat)",
-                    value_codes=(1, 2, 3, 4, 5), corr_codes=(6,))
+                    value_codes=(1, 2, 3, 4, 5), corr_codes=(6,), sig_of=sig_of)
     kinds = {}
     nmatch = 0
     for c in cases:
@@ -294,6 +678,7 @@ def main(tier, seed, replay=None):
             nmatch += 1
     evalcheck.stats(run, cases, outs, codes,
                     "random nested values (arrays, tuples, dicts, sets, numbers, strings) and patterns derived from them (names incl. repeated ones, _, literal and (expr) patterns, nested array/tuple/dict/set patterns (set patterns: literals with ...rest, literals with one name and exactly one / two or more members left over, literals only), ...rest at any position, trailing fallbacks) enumerated cores of cond with the _ arm first or in the middle followed by arms that also match, of fallback items whose component is present with a falsy value / present with a truthy value / absent (tuple, array, dict, nested, parameter), of names repeated across nesting levels and as the ...rest of a tuple or array (agreeing and disagreeing values, six name pairs, let / cond / parameter), an enumerated core of [p1..pk, ...r, q1..qm] (k, m <= 2) against arrays of every length from two short to longer; matched against the value itself or a near-miss of it (one extra / missing element, offset, hole, one component changed, wrong kind) in `let P = V; (names)`, `(\\\\P body)(V)` and `cond V {P1:.., P2:.., _:0}`",
-                    {"form_histogram": kinds, "programs_that_matched": nmatch, "exhaustive": False})
+                    {"form_histogram": kinds, "programs_that_matched": nmatch, "exhaustive": False,
+                     "deep_stream": dstats})
     run.assumptions = ["patterns with more than one of (...rest | fallback) per level are rejected by the implementation as 'non-deterministic' and are not generated"]
     return run.finish(proof)
